@@ -7,7 +7,7 @@ EXTENDS TrustStoreOps, TLC, Json
 
 CONSTANTS Inits, MaxSerial, MaxSteps,
           Kinds1, Kinds2,     \* failure kinds injected in the first / in later notifications
-          Variants1, Variants2, LoadSteps
+          Variants1, Variants2, LoadSteps, MaxFiles
 
 VARIABLES db, hist, init
 vars == <<db, hist, init>>
@@ -34,21 +34,36 @@ Notify ==
                                     outc |-> outc, files |-> <<>>])
            /\ db' = IF isd = 1 THEN r.db ELSE db
 
-File(s, c, fut) == [serial |-> s, content |-> c, future |-> fut]
+File(s, c, fut, isd, junk) == [serial |-> s, content |-> c, future |-> fut, isd |-> isd, junk |-> junk]
+\* a directory mixing valid, future-dated, conflicting, unparsable and other-ISD files, in every file-name order
+RECURSIVE Perms(_)
+Perms(S) == IF S = {} THEN {<<>>} ELSE UNION {{<<x>> \o p : p \in Perms(S \ {x})} : x \in S}
 Load ==
     LET latest == Latest(db)
-        cand == {File(s, c, fut) : s \in {latest, latest + 1, latest + 2} \cap Serials, c \in {"a", "b"}, fut \in BOOLEAN} IN
+        cand == {File(latest + 1, "a", FALSE, 1, FALSE), File(latest + 2, "a", FALSE, 1, FALSE),
+                 File(latest + 1, "a", TRUE, 1, FALSE), File(latest, "b", FALSE, 1, FALSE),
+                 File(0, "a", FALSE, 1, TRUE), File(2, "a", FALSE, 2, FALSE), File(3, "a", TRUE, 2, FALSE)} IN
     /\ Len(hist) + 1 \in LoadSteps
-    /\ \E f1 \in cand, f2 \in cand \cup {File(0, "a", FALSE)} :
-         LET files == IF f2.serial = 0 THEN <<f1>> ELSE <<f1, f2>> IN
-         /\ f2.serial # 0 => (f1.future # f2.future /\ f1 # f2)
-         /\ hist' = Append(hist, [op |-> "load", isd |-> 1, base |-> 1, serial |-> 0,
-                                  outc |-> [s \in Serials |-> "ok"], files |-> files])
-         /\ db' = LoadResult(db, files).db
+    /\ latest + 2 <= MaxSerial
+    /\ \E S \in SUBSET cand :
+         /\ S # {} /\ Cardinality(S) <= MaxFiles
+         /\ \E files \in Perms(S) :
+              /\ hist' = Append(hist, [op |-> "load", isd |-> 1, base |-> 1, serial |-> 0,
+                                       outc |-> [s \in Serials |-> "ok"], files |-> files])
+              /\ db' = LoadResult(db, files).db
 
-Next == Len(hist) < MaxSteps /\ (Notify \/ Load) /\ UNCHANGED init
+\* a notification during which the database cannot be read
+NotifyDBFail ==
+    \E serial \in {Latest(db), Latest(db) + 1} \cap Serials :
+       /\ hist' = Append(hist, [op |-> "notify", isd |-> 1, base |-> 1, serial |-> serial,
+                                outc |-> [s \in Serials |-> "dbreaderr"], files |-> <<>>])
+       /\ UNCHANGED db
+
+\* a history ends after a load of a mixed directory (more than one file)
+Ended == Len(hist) = MaxSteps \/ (Len(hist) > 0 /\ Len(hist[Len(hist)].files) > 1)
+Next == ~Ended /\ (Notify \/ Load \/ NotifyDBFail) /\ UNCHANGED init
 Spec == Init /\ [][Next]_vars
 View == <<hist, init>>
 
-Emit == Len(hist) = MaxSteps => PrintT(<<"SCN", ToJson([init |-> init, steps |-> hist])>>)
+Emit == Ended => PrintT(<<"SCN", ToJson([init |-> init, steps |-> hist])>>)
 =============================================================================
